@@ -82,7 +82,9 @@ def eval_override(xtext, n, fns, ex=None):
     -3 .. 6 one after the other); None: a fresh one"""
     tr = base_tr()
     ex = ex or tr.executor()
-    ex.set_cells([wbk.Cell('S', 'A', '1', to_number(xtext)), wbk.Cell('S', 'B', '1', n)])
+    o_set = wbk.outcome(lambda: ex.set_cells([wbk.Cell('S', 'A', '1', to_number(xtext)), wbk.Cell('S', 'B', '1', n)]))
+    if o_set[0] != 'value':
+        return {fn: o_set for fn in fns}
     return {fn: tr.get('S', COL[fn], '1', ex) for fn in fns}
 
 
@@ -157,6 +159,16 @@ def eval_cells(points, via):
             formulas.append(formula_for(fn, f'A{r}', f'B{r}'))
         else:
             a = x
+            if r % 3 == 0:
+                # the same decimal in exponent spelling (4.5e-3, 1.23456789e4): a literal denotes the double nearest to its text
+                sign_, digits_, exp_ = Decimal(x).as_tuple()
+                ds = ''.join(map(str, digits_)).lstrip('0') or '0'
+                if ds != '0':
+                    exp_ += len(''.join(map(str, digits_))) - len(''.join(map(str, digits_)).lstrip('0')) - 0
+                    ds2 = ds.rstrip('0') or '0'
+                    e10 = exp_ + (len(ds) - len(ds2)) + len(ds2) - 1
+                    a = ('-' if sign_ else '') + ds2[0] + ('.' + ds2[1:] if len(ds2) > 1 else '') + f'e{e10}'
+                    assert Decimal(a) == Decimal(x), (a, x)
             formulas.append(formula_for(fn, a, str(n)))
     return wbk.eval_formulas([{'title': 'S', 'cells': cells}], formulas, first_col=4, ncols=6)
 
